@@ -3,10 +3,26 @@
 package run
 
 import (
+	"reflect"
+	"unsafe"
+
 	"github.com/form3tech-oss/f1/v2/internal/options"
 	"github.com/form3tech-oss/f1/v2/internal/progress"
 	"github.com/form3tech-oss/f1/v2/internal/run/views"
 )
+
+// The accessors find unexported fields by their TYPE, not by their name, so that a rename
+// of an unexported identifier does not break the harness.
+
+func verifField(p any, t reflect.Type) reflect.Value {
+	v := reflect.ValueOf(p).Elem()
+	for i := 0; i < v.NumField(); i++ {
+		if f := v.Field(i); f.Type() == t {
+			return f
+		}
+	}
+	panic("verif: no field of type " + t.String())
+}
 
 // VerifResultFrom builds a Result whose final snapshot and error list are
 // given directly (read/write access to unexported fields for the harness).
@@ -15,12 +31,17 @@ func VerifResultFrom(opts options.RunOptions, errs []error, snap progress.Snapsh
 	for _, e := range errs {
 		r.AddError(e)
 	}
-	r.snapshot = snap
+	f := verifField(r, reflect.TypeOf(progress.Snapshot{}))
+	*(*progress.Snapshot)(unsafe.Pointer(f.UnsafeAddr())) = snap
 	return r
 }
 
 // VerifStats exposes the progress statistics a Result reads from.
-func (r *Result) VerifStats() *progress.Stats { return r.progressStats }
+func (r *Result) VerifStats() *progress.Stats {
+	return (*progress.Stats)(unsafe.Pointer(verifField(r, reflect.TypeOf((*progress.Stats)(nil))).Pointer()))
+}
 
 // VerifResult exposes the result of a Run while it is running.
-func (r *Run) VerifResult() *Result { return r.result }
+func (r *Run) VerifResult() *Result {
+	return (*Result)(unsafe.Pointer(verifField(r, reflect.TypeOf((*Result)(nil))).Pointer()))
+}
